@@ -119,7 +119,8 @@ def unpack(sequence, context, *args):
         yaql> [2, 3].unpack() -> $1 + $2
         5
     """
-    lst = tuple(itertools.islice(sequence, len(args) + 1))
+    iterator = iter(sequence)
+    lst = tuple(itertools.islice(iterator, len(args) + 1))
     if 0 < len(args) != len(lst):
         raise ValueError('Cannot unpack {} elements into {}'.format(
             len(lst), len(args)))
@@ -127,7 +128,9 @@ def unpack(sequence, context, *args):
         for i in range(len(lst)):
             context[args[i]] = lst[i]
     else:
-        for i, t in enumerate(sequence, 1):
+        # the elements taken for the length check come first: a one-shot
+        # iterator cannot be read again from the start
+        for i, t in enumerate(itertools.chain(lst, iterator), 1):
             context[str(i)] = t
     return context
 
